@@ -9,6 +9,8 @@ import Proofs.C08_Indep
 import Proofs.C08_Shape
 import Proofs.C08_Values
 import Proofs.C08_Routes
+import Proofs.C08_Source
+import Proofs.C08_Compose
 namespace Atomman.C08
 open Atomman Atomman.C07
 set_option linter.unusedSimpArgs false
@@ -375,6 +377,56 @@ theorem load_dump_roundtrip_dump_partial {f : Fmt} (hf : Readable f) (s : Sys) (
         loadDump text symbols given u = loadDumpCore (dumpState f lf s props) (some (rowsDoc f rows)) symbols given u) :=
   loadDump_writeDump hf s props u ts text hw hnames symbols given
 
+/-- **load_dump_roundtrip_dump_values** (load ∘ dump of a dump file, END TO END, closed form per property): for the
+    text `atom_dump.dump` writes (`C07.writeDump`; the rows `C07.tableRows` lays out for the system's atom ids, one per
+    atom, **in any id order**), loaded with a column table `pcols` (the one the writer returns, or any other that names
+    each property once and accounts for all columns): the loaded system has **the atom count** and **the periodic
+    flags** of the dumped one, the caller's symbols, **the cell** built from the header bounds of `dumpState` (tilt
+    extents removed: `dump_bounds_eq_independent`), and every listed property (a position variant as `pos`; the atom id
+    is not stored) has **the shape of its entry** and holds, atom by atom **in id order**, **the printed values of its
+    own column group** — as they stand for `unit = None`, times the unit factor otherwise (`unit_roundtrip_error`: to
+    the printed precision with the conversion undone).  This closes `load_dump_roundtrip_dump_partial` for columns
+    without conversion or with a unit factor. -/
+theorem load_dump_roundtrip_dump_values {f : Fmt} (hf : Readable f) (s : Sys) (props : List (String × List Nat))
+    (u : Units) (ts : Int) (text : List Char) (hw : writeDump s props u f ts = .ok text)
+    (hnames : ∀ t ∈ dumpNames props, CleanTok t) :
+    ∃ lf rows, lengthFactor u = .ok lf ∧ tableRows s u (dumpIds s) s.pos (dumpCols props) [] = .ok rows ∧
+      rows.length = s.natoms ∧
+      ∀ (symbols : Option (List (Option String))) (pcols : List PCol) (s' : Loaded) (i : Nat),
+        rows ≠ [] → (∀ r ∈ rows, r.length = colsWidth pcols) → colsWidth pcols ≠ 0 →
+        idIndex pcols = some i → (rows.map (cellKey f (colsWidth pcols) i)).Nodup →
+        ((pcols.map renamePos).map (·.prop)).Nodup →
+        loadDump text symbols (some pcols) u = .ok s' →
+        s'.natoms = s.natoms ∧ s'.pbc = s.pbc ∧ s'.symbols = symbols.getD [] ∧
+        (∃ xlo xhi ylo yhi zlo zhi, (dumpState f lf s props).xlo = some xlo ∧ (dumpState f lf s props).xhi = some xhi ∧
+          (dumpState f lf s props).ylo = some ylo ∧ (dumpState f lf s props).yhi = some yhi ∧
+          (dumpState f lf s props).zlo = some zlo ∧ (dumpState f lf s props).zhi = some zhi ∧
+          Box.ofHiLos? xlo xhi ylo yhi zlo zhi (dumpState f lf s props).xy (dumpState f lf s props).xz
+            (dumpState f lf s props).yz = some s'.box) ∧
+        ∀ (j : Nat) (hj : j < pcols.length), (renamePos pcols[j]).prop ≠ "a_id" →
+          ∃ q, s'.prop? (renamePos pcols[j]).prop = some q ∧ q.shape = pcols[j].shape ∧
+            (pcols[j].unit = .none →
+              q.vals = (sortBy (cellKey f (colsWidth pcols) i) rows).map fun r => groupG pcols j (r.map (cellRat f))) ∧
+            (∀ v, pcols[j].unit = .factor v →
+              q.vals = (sortBy (cellKey f (colsWidth pcols) i) rows).map fun r =>
+                (groupG pcols j (r.map (cellRat f))).map (· * v)) :=
+  dump_file_values hf s props u ts text hw hnames
+
+/-- a dump file with its atom lines out of id order, a `(1,)` column with a unit factor, an unwrapped-position column
+    group and a non-periodic direction, loaded with a column table. -/
+def exDump : Option Loaded :=
+  (loadDump "ITEM: TIMESTEP\n0\nITEM: NUMBER OF ATOMS\n2\nITEM: BOX BOUNDS pp pp fm\n0.0 4.0\n0.0 8.0\n0.0 2.0\nITEM: ATOMS id type x y z w[0]\n2 2 1.25 0.5 0.125 7.5\n1 1 0.5 1.25 1.0 2.5\n".toList
+    none (some [⟨"a_id", ["id"], [], .none⟩, ⟨"atype", ["type"], [], .none⟩, ⟨"upos", ["x", "y", "z"], [3], .factor 1⟩,
+      ⟨"w", ["w[0]"], [1], .factor (1 / 2)⟩]) [("length", some 1)]).toOption
+
+/-- … atom count, flags, and the values in id order under the entry's shape (the conclusion of
+    `load_dump_roundtrip_dump_values` on a concrete file). -/
+example : exDump.map (fun l => (l.natoms, l.pbc)) = some (2, ⟨true, true, false⟩) := by decide +kernel
+example : exDump.map (fun l => (l.prop? "w").map (fun p => (p.shape, p.vals))) = some (some ([1], [[5 / 4], [15 / 4]])) := by
+  decide +kernel
+example : exDump.map (fun l => (l.prop? "pos").map (·.vals)) = some (some [[1 / 2, 5 / 4, 1], [5 / 4, 1 / 2, 1 / 8]]) := by
+  decide +kernel
+
 /-- **load_dump_roundtrip_data_partial**: loading any data file the writer emits ends the first pass in `dataFP`
     (atom count, bounds and tilts at their printed values times the length unit, the atom_style of the `Atoms`
     comment, the width of the first atom line, the `Velocities` offset when there are velocities) and reads exactly
@@ -388,6 +440,40 @@ theorem load_dump_roundtrip_data_partial {f : Fmt} (hf : Readable f) (s : Sys) (
           (fpFinish (dataFP f lf ((styleWords style).map strTok) p) false).bind fun fp =>
             loadDataCore fp (dataRowsA f p) (p.vel.map (rowsDoc f)) pbc symbols styleArg u) :=
   loadData_writeData hf s style u text hw hwords
+
+/-- **load_dump_roundtrip_data_values** (load ∘ dump of a data file, END TO END, closed form per property): for the
+    text `atom_data.dump` writes (`C07.writeData`: the wrapped system, one atom line per atom, image-flag columns, an
+    optional `Velocities` section), loaded with any `pbc` / `symbols` / `atom_style` argument that `chooseStyle` accepts
+    against the `Atoms` comment: the loaded system has **the atom count** of the dumped one, and every column group of the
+    atom_style's `Atoms` table other than the id and the positions (atom types, charges, molecule ids, densities, … —
+    whatever the regenerated loader table lists; not assigned again by the `Velocities` table) has **the shape of its
+    entry** and holds, **in id order**, **the printed values of its own columns** — as they stand, or times the unit
+    factor of the LAMMPS unit style.  (The positions are those printed values plus the image-flag shift `applyFlags`,
+    which touches `pos` only: `applyFlags_other`.)  The first pass (`load_dump_roundtrip_data_partial`), the style
+    decision, the table reader and the `Velocities` pass are composed into one statement; `exLoaded` below is a
+    concrete instance (two atom lines out of id order, non-zero flags). -/
+theorem load_dump_roundtrip_data_values {f : Fmt} (hf : Readable f) (s : Sys) (style : String) (u : Units)
+    (text : List Char) (hw : writeData s style u f = .ok text)
+    (hwords : (styleWords style).map strTok ≠ [] ∧ ∀ t ∈ (styleWords style).map strTok, CleanTok t) :
+    ∃ lf p w, lengthFactor u = .ok lf ∧ dataParts s style u = .ok (p, w) ∧ p.rows.length = s.natoms ∧
+      ∀ (pbc : V3 Bool) (symbols : Option (List (Option String))) (styleArg : Option String) (s' : Loaded)
+        (style' : String) (cols : List PCol) (n i : Nat),
+        p.rows ≠ [] → (∀ r ∈ p.rows, r.length = n) → n ≠ 0 → (∀ vr, p.vel = some vr → ∀ r ∈ vr, r ≠ []) →
+        chooseStyle styleArg (some (joinSp ((styleWords style).map strTok))) = .ok style' →
+        lookupCols Gen.LoadStyles.atomStyles style' u = .ok cols → colsWidth cols ≤ n →
+        idIndex cols = some i → (p.rows.map (cellKey f (colsWidth cols) i)).Nodup → (cols.map (·.prop)).Nodup →
+        loadData text pbc symbols styleArg u = .ok s' →
+        s'.natoms = s.natoms ∧
+        ∀ (j : Nat) (hj : j < cols.length), cols[j].prop ≠ "a_id" → cols[j].prop ≠ "pos" →
+          (∀ vc, lookupCols Gen.LoadStyles.velStyles style' u = .ok vc → ∀ c ∈ vc, c.prop ≠ cols[j].prop) →
+          ∃ q, s'.prop? cols[j].prop = some q ∧ q.shape = cols[j].shape ∧
+            (cols[j].unit = .none →
+              q.vals = (sortBy (cellKey f (colsWidth cols) i) p.rows).map fun r =>
+                groupG cols j ((r.take (colsWidth cols)).map (cellRat f))) ∧
+            (∀ v, cols[j].unit = .factor v →
+              q.vals = (sortBy (cellKey f (colsWidth cols) i) p.rows).map fun r =>
+                (groupG cols j ((r.take (colsWidth cols)).map (cellRat f))).map (· * v)) :=
+  data_file_values hf s style u text hw hwords
 
 /-- **load_dump_roundtrip_table_partial**: the text `table.dump` writes is read back as exactly the written rows,
     one atom per row; with `tableLoad_rowsDoc` (ids `1..N` are already in order) the numeric table is the printed
